@@ -258,6 +258,37 @@ class C10Mixin(object):
             return "ok"
         raise ValueError(target)
 
+    def ev_readback(self, tbl, ref, target):
+        """What is now at the spot a named mutation wrote to (a customisation stays until the
+        table's own group is initialised again, whatever happens to other tables)."""
+        a = self.atom(tbl, ref)
+        if target in ("_mass", "_density", "_abundance", "_mass_unc", "_abundance_unc", "covalent_radius", "covalent_radius_uncertainty",
+                      "K_alpha", "K_beta1", "density_caveat", "nuclear_spin"):
+            return canon(getattr(a, target))
+        if target in ("crystal_structure_assign", "crystal_structure_inplace"):
+            return canon(a.crystal_structure["a"])
+        if target in ("neutron_assign", "neutron_field", "neutron_field_dataless"):
+            return canon(a.neutron.b_c)
+        if target == "nsf_table_inplace":
+            x = complex(a.neutron.nsf_table[1][0])      # the column is complex; the mutation wrote a real number
+            return canon(x.real if x.imag == 0 else x)
+        if target == "magnetic_ff_field":
+            d = a.magnetic_ff
+            return canon(d[sorted(k for k in d if k != 99)[0]].j0[0])
+        if target == "magnetic_ff_dict":
+            return canon(a.magnetic_ff.get(99))
+        if target == "magnetic_ff_assign":
+            return canon(a.magnetic_ff.get(2))
+        if target == "activation_row_field":
+            return canon(a.neutron_activation[0].thermalXS)
+        if target == "activation_assign":
+            return canon(len(a.neutron_activation))
+        if target == "xray_newfield":
+            return canon(a.xray.newfield)
+        if target == "xray_sftable_inplace":
+            return canon(a.xray.sftable[1][0])
+        raise ValueError(target)
+
     def ev_mutate_walk(self, tbl, group, k, how=None):
         """Generic mutation from the shared-object walk (DESIGN 3.4): collect the
         mutable objects reachable from the served values of `group` on `tbl`, in a
